@@ -251,7 +251,11 @@ def main():
     scalar_byte = ("dataset", "sb0", (("base", "b", "B", (), (200,)), ("base", "i", "i", (), (5,))))
     str_byte = ("dataset", "sq0", (("seq", "q", (("base", "s", "S", (), ()), ("base", "b", "B", (), ()), ("base", "n", "i", (), ())),
                                     (("ab", 7, 1), ("", 255, 2), ("abcde", 0, 3))),))
-    corpus = [(two_str, "numpy"), (two_str, "iterdata"), (scalar_byte, "numpy"), (str_byte, "numpy"), (str_byte, "iterdata")]
+    # two datasets with the same names, types and ranks and other extents, served one after the other in this process
+    ext_a = ("dataset", "e0", (("base", "x", "i", (3,), (1, 2, 3)), ("base", "m", "d", (2, 2), (0.5, 1.5, 2.5, 3.5))))
+    ext_b = ("dataset", "e0", (("base", "x", "i", (5,), (1, 2, 3, 4, 5)), ("base", "m", "d", (1, 3), (0.5, 1.5, 2.5))))
+    corpus = [(two_str, "numpy"), (two_str, "iterdata"), (scalar_byte, "numpy"), (str_byte, "numpy"), (str_byte, "iterdata"),
+              (ext_a, "numpy"), (ext_b, "numpy")]
     for i in range(n + len(corpus)):
         desc = G.gen_dataset(rng)
         backend = rng.choice(["numpy", "numpy", "iterdata"])
